@@ -453,13 +453,13 @@ func runDecrypt(c Case, doc []byte, A, B orig) obs {
 		src := sc.Reader()
 		r, err := enc.Decrypt(src, enc.DecryptOptions{UnwrapKeyFn: unwrap})
 		if err != nil {
-			o.term = encx.Canon(err)
+			o.term = encx.CanonSrc(err, sc, src)
 			return nil
 		}
 		o.failedInHeader = src.Failed
 		var terr error
 		o.released, terr = encx.Drain(r, c.Consumer)
-		o.term = encx.Canon(terr)
+		o.term = encx.CanonSrc(terr, sc, src)
 		return nil
 	})
 	if gerr != nil {
@@ -505,6 +505,28 @@ func mutIDs(c Case) string {
 	return strings.Join(ids, "+")
 }
 
+// firstKind is the coarse cause used in finding ids: the first mutation kind, else the source
+// failure, else the unwrap mode.
+func firstKind(c Case) string {
+	if len(c.Muts) > 0 {
+		return c.Muts[0].Kind
+	}
+	if c.FailAt >= 0 {
+		return "srcfail"
+	}
+	if c.Unwrap != "ok" && c.Unwrap != "" {
+		return "unwrap"
+	}
+	return "none"
+}
+
+func errKind(c Case) string {
+	if c.Script.Err == "" {
+		return "custom"
+	}
+	return c.Script.Err
+}
+
 // monitor decides, without the model, whether this run violates C02.
 func monitor(res *lib.Result, c Case, A, B orig, doc []byte, o obs) {
 	if o.term == "panic" || o.term == "timeout" {
@@ -515,21 +537,24 @@ func monitor(res *lib.Result, c Case, A, B orig, doc []byte, o obs) {
 	okA := encx.IsPrefix(o.released, A.plain)
 	okB := encx.IsPrefix(o.released, B.plain)
 	if !okA && !okB {
-		res.Violate("released-not-prefix:"+mutIDs(c), fmt.Sprintf("released %d bytes that are not a prefix of the original plaintext", len(o.released)), c)
+		res.Violate("released-not-prefix:"+firstKind(c), fmt.Sprintf("released %d bytes that are not a prefix of the original plaintext (%s)", len(o.released), mutIDs(c)), c)
 		return
 	}
-	if c.FailAt >= 0 && o.term == "ok" {
-		id := "source-error-lost@" + c.FailCls
+	// a genuine source failure (any error value for which errors.Is(err, io.EOF) does not hold) must
+	// never end in a clean EOF; an EOF-class error is an end-of-stream signal and is judged as a
+	// truncation at that offset below
+	if c.FailAt >= 0 && c.Script.Fails() && o.term == "ok" {
+		id := "source-error-lost:" + errKind(c)
 		if o.failedInHeader {
 			id = "header-read-error-swallowed"
 		}
-		res.Violate(id, fmt.Sprintf("the source reader failed at offset %d (%s, data-with-error=%v) but the stream ended in a clean EOF after %d bytes", c.FailAt, c.Script.Term, c.Script.EWD, len(o.released)), c)
+		res.Violate(id, fmt.Sprintf("the source reader failed with %q at offset %d (%s, offset class %s, %s, data-with-error=%v) but the stream ended in a clean EOF after %d bytes", encx.SourceErr(c.Script.Err).Error(), c.FailAt, mutIDs(c), c.FailCls, c.Script.Term, c.Script.EWD, len(o.released)), c)
 		return
 	}
 	if o.term == "ok" {
 		full := (okA && len(o.released) == len(A.plain)) || (okB && len(o.released) == len(B.plain))
 		if !full {
-			id := "silent-truncation:" + mutIDs(c)
+			id := "silent-truncation:" + firstKind(c)
 			eff := doc
 			if c.FailAt >= 0 && c.FailAt < len(doc) {
 				eff = doc[:c.FailAt]
@@ -541,7 +566,7 @@ func monitor(res *lib.Result, c Case, A, B orig, doc []byte, o obs) {
 			if len(o.released) == 0 && le.l3[0] >= 0 && le.hdrEnd == len(eff) {
 				id = "truncate-at-header-end"
 			}
-			res.Violate(id, fmt.Sprintf("clean EOF after %d of %d plaintext bytes (document of %d bytes cut to %d)", len(o.released), len(A.plain), len(A.doc), len(eff)), c)
+			res.Violate(id, fmt.Sprintf("clean EOF after %d of %d plaintext bytes (document of %d bytes, effective %d bytes; %s)", len(o.released), len(A.plain), len(A.doc), len(eff), mutIDs(c)), c)
 		}
 	}
 }
@@ -652,21 +677,26 @@ func gen(tier string, rng *lib.Rand, search bool) []Case {
 			c.Unwrap = u
 			cases = append(cases, c)
 		}
-		// source failures at every offset class × both delivery styles × both failure kinds
+		// source failures at every offset class × both delivery styles × both failure kinds × every
+		// error value of the palette (custom, io.ErrUnexpectedEOF, io.ErrClosedPipe, io.ErrNoProgress,
+		// context.Canceled, os.ErrDeadlineExceeded, an error wrapping io.EOF)
 		for _, cl := range offsetClasses {
 			for _, ewd := range []bool{false, true} {
 				for _, t := range []string{"failOnce", "failSticky"} {
-					c := base(i)
-					i++
-					c.LenA = n
-					c.FailCls = cl
-					c.FailAt = -2 // resolved against the document in runCase
-					c.Script.EWD = ewd
-					c.Script.Term = t
-					if i%3 == 0 {
-						c.Script.Caps = nil
+					for _, ek := range encx.ErrKinds {
+						c := base(i)
+						i++
+						c.LenA = n
+						c.FailCls = cl
+						c.FailAt = -2 // resolved against the document in runCase
+						c.Script.EWD = ewd
+						c.Script.Term = t
+						c.Script.Err = ek
+						if i%3 == 0 {
+							c.Script.Caps = nil
+						}
+						cases = append(cases, c)
 					}
-					cases = append(cases, c)
 				}
 			}
 		}
@@ -699,6 +729,7 @@ func gen(tier string, rng *lib.Rand, search bool) []Case {
 			c.FailCls = offsetClasses[rng.Intn(len(offsetClasses))]
 			c.FailAt = -2
 			c.Script.Term = []string{"failOnce", "failSticky"}[rng.Intn(2)]
+			c.Script.Err = encx.ErrKinds[rng.Intn(len(encx.ErrKinds))]
 		}
 		cases = append(cases, c)
 	}
@@ -748,6 +779,7 @@ func runCase(res *lib.Result, drv *lib.Drv, real bool, c Case, idx int) {
 	}
 	if c.FailAt >= 0 {
 		res.Hit("srcfail@" + c.FailCls)
+		res.Hit("srcerr=" + errKind(c))
 	}
 	res.Hit("unwrap=" + c.Unwrap)
 	res.Hit("len=" + lenClass(c.LenA))
@@ -848,15 +880,17 @@ func runToy(c toyCase) string {
 	}
 	var out []byte
 	var terr error
+	var src *encx.ScriptReader
 	gerr := encx.Guard(20*time.Second, func() error {
-		r := enc.VerifProcessSegments(sc.Reader(), c.Seg+1, fn)
+		src = sc.Reader()
+		r := enc.VerifProcessSegments(src, c.Seg+1, fn)
 		out, terr = encx.Drain(r, nil)
 		return nil
 	})
 	if gerr != nil {
 		return "term=" + encx.Canon(gerr)
 	}
-	return fmt.Sprintf("out=%s ncalls=%d term=%s", hex.EncodeToString(out), ncalls, encx.Canon(terr))
+	return fmt.Sprintf("out=%s ncalls=%d term=%s", hex.EncodeToString(out), ncalls, encx.CanonSrc(terr, sc, src))
 }
 
 func genToy(tier string, rng *lib.Rand) []toyCase {
@@ -881,10 +915,12 @@ func genToy(tier string, rng *lib.Rand) []toyCase {
 			add := func(mut string, d []byte) {
 				scripts := []encx.Script{{}, {Caps: []int{1, 1, 1, 1, 1, 1, 1, 1, 1, 1, 1, 1, 1, 1, 1, 1}, EWD: true}, {Caps: []int{seg + 1, 0, seg + 2}}, encx.RandomScript(rng, len(d), seg+1)}
 				for _, sc := range scripts {
-					for _, t := range []string{"eof", "failOnce"} {
-						sc.Term = t
-						cases = append(cases, toyCase{"toy", seg, n, mut, hex.EncodeToString(d), sc})
-					}
+					sc.Term = "eof"
+					cases = append(cases, toyCase{"toy", seg, n, mut, hex.EncodeToString(d), sc})
+					// a failing source: the error value rotates through the palette
+					sc.Term = []string{"failOnce", "failSticky"}[len(cases)%2]
+					sc.Err = encx.ErrKinds[(len(cases)/2)%len(encx.ErrKinds)]
+					cases = append(cases, toyCase{"toy", seg, n, mut, hex.EncodeToString(d), sc})
 				}
 			}
 			add("none", doc)
@@ -1009,6 +1045,13 @@ func run(f lib.Flags) {
 		}
 		impl := runToy(c)
 		res.Count(lines[i], c.Mut != "none" || c.Script.Term != "eof")
+		if c.Script.Fails() && encx.KV(impl)["term"] == "ok" {
+			k := c.Script.Err
+			if k == "" {
+				k = "custom"
+			}
+			res.Violate("loop-source-error-lost:"+k, fmt.Sprintf("processSegments: the source failed with %q but the pipe was closed cleanly", encx.SourceErr(c.Script.Err).Error()), c)
+		}
 		res.Hit("toy." + strings.SplitN(c.Mut, "@", 2)[0])
 		res.Hit("toy.term=" + encx.KV(impl)["term"])
 		if i%2999 == 0 {
